@@ -160,6 +160,18 @@ pub fn ser<G: SerdeGlue>(f: Fmt, raw: &Value) -> Option<SerObs> {
     }
     o.bytes_t = Some(bt);
     o.bytes_inner = Some(bi);
+    if f == Fmt::Ron {
+        let cfg = || ron::ser::PrettyConfig::new().struct_names(true);
+        let tt = G::t_make(raw)?;
+        let a = guarded(|| ron::ser::to_string_pretty(&tt, cfg()).map_err(|e| e.to_string())).unwrap_or_else(|p| Err(format!("PANIC {p}")));
+        let b = ron::ser::to_string_pretty(&G::r_make(Conv::from_value(&stored)), cfg()).map_err(|e| e.to_string());
+        let back = a.as_ref().ok().map(|txt| match guarded(|| ron::de::from_str::<G::T>(txt)) {
+            Ok(Ok(t2)) => Ok(G::t_inner(t2)),
+            Ok(Err(e)) => Err(e.to_string()),
+            Err(p) => Err(format!("PANIC {p}")),
+        });
+        o.ron_named = Some((a, b, back));
+    }
     for p in [Pos::VecElem, Pos::OptionSome, Pos::StructField, Pos::MapValue] {
         let one = |out: &mut Vec<Vec<u8>>| -> Result<Vec<u8>, String> { out.pop().ok_or_else(|| "serialization failed".to_string()) };
         let mut a = Vec::new();
@@ -449,23 +461,30 @@ impl<'de, 'l> serde::Deserializer<'de> for Probe<'l> {
                 Err(ProbeErr("no value".into()))
             }
         }
-        let (name2, r) = match self.mode {
-            0 => ("visit_u64", v.visit_u64::<ProbeErr>(7).is_ok()),
-            1 => ("visit_i64", v.visit_i64::<ProbeErr>(-7).is_ok()),
-            2 => ("visit_f64", v.visit_f64::<ProbeErr>(f64::NAN).is_ok()),
-            3 => ("visit_bool", v.visit_bool::<ProbeErr>(true).is_ok()),
-            4 => ("visit_str", v.visit_str::<ProbeErr>("").is_ok()),
-            5 => ("visit_string", v.visit_string::<ProbeErr>(String::new()).is_ok()),
-            6 => ("visit_bytes", v.visit_bytes::<ProbeErr>(&[]).is_ok()),
-            7 => ("visit_none", v.visit_none::<ProbeErr>().is_ok()),
-            8 => ("visit_unit", v.visit_unit::<ProbeErr>().is_ok()),
-            9 => ("visit_seq", v.visit_seq(OneSeq(false)).is_ok()),
-            10 => ("visit_map", v.visit_map(NoMap).is_ok()),
-            11 => ("visit_char", v.visit_char::<ProbeErr>(' ').is_ok()),
-            12 => ("visit_u128", v.visit_u128::<ProbeErr>(u128::MAX).is_ok()),
-            _ => ("visit_some", v.visit_some(serde::de::value::F64Deserializer::<ProbeErr>::new(f64::INFINITY)).is_ok()),
+        let (name2, r): (&str, Result<V::Value, ProbeErr>) = match self.mode {
+            0 => ("visit_u64", v.visit_u64::<ProbeErr>(7)),
+            1 => ("visit_i64", v.visit_i64::<ProbeErr>(-7)),
+            2 => ("visit_f64", v.visit_f64::<ProbeErr>(f64::NAN)),
+            3 => ("visit_bool", v.visit_bool::<ProbeErr>(true)),
+            4 => ("visit_str", v.visit_str::<ProbeErr>("")),
+            5 => ("visit_string", v.visit_string::<ProbeErr>(String::new())),
+            6 => ("visit_bytes", v.visit_bytes::<ProbeErr>(&[])),
+            7 => ("visit_none", v.visit_none::<ProbeErr>()),
+            8 => ("visit_unit", v.visit_unit::<ProbeErr>()),
+            9 => ("visit_seq", v.visit_seq(OneSeq(false))),
+            10 => ("visit_map", v.visit_map(NoMap)),
+            11 => ("visit_char", v.visit_char::<ProbeErr>(' ')),
+            12 => ("visit_u128", v.visit_u128::<ProbeErr>(u128::MAX)),
+            _ => ("visit_some", v.visit_some(serde::de::value::F64Deserializer::<ProbeErr>::new(f64::INFINITY))),
         };
-        self.log.borrow_mut().push(if r { format!("{name2} PRODUCED A VALUE") } else { format!("{name2} rejected") });
+        // a value produced by a non-newtype visit is handed back to the caller, who checks it against the reference model
+        match r {
+            Ok(x) => {
+                self.log.borrow_mut().push(format!("{name2} produced a value"));
+                return Ok(x);
+            }
+            Err(_) => self.log.borrow_mut().push(format!("{name2} rejected")),
+        }
         Err(ProbeErr("probe".into()))
     }
     fn deserialize_tuple<V: serde::de::Visitor<'de>>(self, len: usize, _v: V) -> Result<V::Value, ProbeErr> {
@@ -486,10 +505,30 @@ impl<'de, 'l> serde::Deserializer<'de> for Probe<'l> {
     }
 }
 
-pub fn probe<G: SerdeGlue>() -> Vec<String> {
+/// (log of entry points / visits, values that non-newtype visits produced)
+pub fn probe<G: SerdeGlue>() -> (Vec<String>, Vec<(String, Value)>) {
     let log = std::cell::RefCell::new(Vec::new());
+    let mut produced = Vec::new();
     for mode in 0..PROBE_MODES {
-        let _ = guarded(|| <G::T as Deserialize>::deserialize(Probe { log: &log, mode }).is_ok());
+        if let Ok(Ok(t)) = guarded(|| <G::T as Deserialize>::deserialize(Probe { log: &log, mode })) {
+            let how = log.borrow().last().cloned().unwrap_or_default();
+            produced.push((how, G::t_inner(t)));
+        }
     }
-    log.into_inner()
+    (log.into_inner(), produced)
+}
+
+/// the sequence form `[inner]` offered through serde's own SeqDeserializer (formats that hand newtypes over as sequences)
+pub fn seq_form<'de, G: SerdeGlue>(raw: &Value) -> DeObs
+where
+    G::I: serde::de::IntoDeserializer<'de, serde::de::value::Error>,
+    G::T: Deserialize<'de>,
+{
+    let x: G::I = Conv::from_value(raw);
+    let d = serde::de::value::SeqDeserializer::<_, serde::de::value::Error>::new(vec![x].into_iter());
+    match guarded(|| <G::T as Deserialize<'de>>::deserialize(d)) {
+        Ok(Ok(t)) => DeObs::Ok(vec![G::t_inner(t)]),
+        Ok(Err(e)) => DeObs::Err(e.to_string()),
+        Err(p) => DeObs::Panic(p),
+    }
 }
